@@ -379,7 +379,15 @@ CHECKS["C08"] = dict(
               "node (engine readyloop: every externalisation judged against what a restart would read from disk) + FAULT ENUMERATION on real node processes crossing the snapshot threshold",
     text="PROVED (kernel-checked, abstract in the state machine): Recover.recover_replays_all, rep_save, rep_snapshot, applied_is_image, acked_survives - what a node "
          "rebuilds from its newest snapshot and the WAL entries after it is the state after its committed prefix, under every storage operation of the Ready loop, so an "
-         "entry at or below the persisted commit index contributes to the recovered state exactly as when it was applied. HYPOTHESES checked on every run: F4 (order of "
+         "entry at or below the persisted commit index contributes to the recovered state exactly as when it was applied. PROVED on the LOOP MODEL (Cluster/ReadyLoop.lean: the "
+         "Ready arm statement by statement, an unsynced WAL tail of which any prefix survives a crash, replayWAL; its arm = the source's arm, ReadyLoop.C08Ready.arm_is_source_arm "
+         "re-proved on every run; its replayWAL compared with the real recovery functions on every observed disk state, engine ready): ReadyLoop.C08Ready.persist_before_externalise - "
+         "in every state reachable by Readys that respect etcd's contract (ReadyOk), the statements of the arm and crashes between any two of them, every crash image restarts and "
+         "keeps every promise made and not taken back by raft (term, vote, acknowledged entries/index, snapshots, applied entries); persisted_hard_state_never_regresses, "
+         "restart_no_regress_run (durable term / vote within a term / commit never go back, restarts read exactly that); snapshot_never_loses; the arm with Send before wal.Save "
+         "and the arm without the post-snapshot sync are refuted by kernel-evaluated runs. LIMIT: ReadyOk excludes a Ready with a snapshot AND entries - there a torn wal.Save "
+         "leaves a WAL replayWAL cannot open (snapshot_with_entries_strands, reproduced on the real code: defect candidate, registry partial). "
+         "HYPOTHESES checked on every run: F4 (order of "
          "the Ready arm extracted from raftexample/raft.go: saveSnap -> wal.Save -> ... -> transport.Send -> publishEntries -> Advance, write errors fatal, F4d: the "
          "wal.Save(rd.HardState, rd.Entries) step is not nested in any conditional) and its BEHAVIOURAL TIE, suite readyloop: one REAL raftexample.RaftNode (id 2 of {1,2,3}: "
          "real WAL + snapshot directory, real rafthttp transport, real serveChannels goroutine), the harness plays peers 1 and 3 through RaftNode.Process (elections, rival "
